@@ -39,16 +39,25 @@ type Case struct {
 	EOFWith bool `json:"eof_with_data"`
 	Display bool `json:"display_messages"`
 	Record  bool `json:"record_messages"`
+	// Closable: the output writer can be closed, as a file or a connection can (else it only has Write).
+	Closable bool `json:"closable_writer"`
+	// EndErr != "": the input does not end in end-of-file but in that read error (an unplugged device, a
+	// reset connection); the input is exhausted all the same and everything derived from it must be out.
+	EndErr string `json:"input_ends_in_error,omitempty"`
 }
 
 type dataErrReader struct {
 	data    []byte
 	pos     int
 	eofWith bool
+	endErr  string
 }
 
 func (r *dataErrReader) Read(p []byte) (int, error) {
 	if r.pos >= len(r.data) {
+		if r.endErr != "" {
+			return 0, appsup.ReadError(r.endErr)
+		}
 		return 0, io.EOF
 	}
 	n := copy(p, r.data[r.pos:])
@@ -77,7 +86,10 @@ func run(app string, input []byte, w interface {
 	cfg := &jsonconfig.Config{}
 	var rd io.Reader = bytes.NewReader(input)
 	if len(opt) > 0 {
-		rd = &dataErrReader{data: input, eofWith: opt[0].EOFWith}
+		rd = &dataErrReader{data: input, eofWith: opt[0].EOFWith && opt[0].EndErr == "", endErr: opt[0].EndErr}
+		if !opt[0].Closable {
+			w = appsup.WriteOnly{W: w}
+		}
 		if app == "rtcmfilter" && (opt[0].Display || opt[0].Record) {
 			logDirNo++
 			dir := filepath.Join(os.Getenv("VERIF_SCRATCH"), fmt.Sprintf("c11-logs-%d", logDirNo))
@@ -227,6 +239,12 @@ func check(c Case, o *stats.Obs) error {
 	}
 	o.NonTrivial = nMsgs >= 1 && slow
 	o.Class(c.App)
+	if c.Closable {
+		o.Class("closable-writer")
+	}
+	if c.EndErr != "" {
+		o.Class("input-ends-in-read-error")
+	}
 	last := ""
 	if n := len(c.Stream.Segs); n > 0 {
 		last = c.Stream.Segs[n-1].Kind
@@ -262,6 +280,10 @@ func gen1(t *rapid.T) Case {
 	c.EOFWith = rapid.Bool().Draw(t, "eofWithData")
 	c.Display = rapid.IntRange(0, 3).Draw(t, "display") == 1
 	c.Record = rapid.IntRange(0, 3).Draw(t, "record") == 1
+	c.Closable = rapid.Bool().Draw(t, "closableWriter")
+	if rapid.IntRange(0, 3).Draw(t, "endsInError") == 2 {
+		c.EndErr = rapid.SampledFrom(appsup.ReadErrorKinds[1:]).Draw(t, "endErr")
+	}
 	return c
 }
 
